@@ -2,7 +2,7 @@
    a whitespace-skipping element absorbs extra leading whitespace.  Stated on the reference reading `peg`, which
    Proofs/PegEquiv.v proves equal to the element semantics on `in_class`. *)
 From Coq Require Import List ZArith NArith Bool Arith Lia.
-From PP Require Import Model.Str Model.Results Model.Prog Model.Core Model.Peg Proofs.PegEquiv.
+From PP Require Import Model.Str Model.Results Model.Prog Model.Core Model.Peg Proofs.PegEquiv Proofs.EachFacts.
 Import ListNotations.
 
 Definition shift (n : nat) (r : res) : res :=
@@ -247,6 +247,54 @@ Proof.
       * apply (IH Hr l (Some (l', ts))).
     + apply IH. intros e' Hin. apply H. right. exact Hin.
 Qed.
+(* '&' : without repeatable operands the number of rounds does not depend on the input *)
+Definition Rel (e : expr) : Prop := forall l, rec1 e (n + l) = shift n (rec2 e l).
+
+Lemma eqb_shift a b : Nat.eqb (n + a) (n + b) = Nat.eqb a b.
+Proof. destruct (Nat.eqb a b) eqn:E; [apply Nat.eqb_eq in E; apply Nat.eqb_eq; lia|apply Nat.eqb_neq in E; apply Nat.eqb_neq; lia]. Qed.
+
+Lemma each_round_shift es : Forall Rel es -> forall cands l reqd opt mo nf k1 k2,
+  entsP Rel cands -> entsP Rel reqd -> entsP Rel opt -> Forall Rel mo ->
+  (forall l' r o m nf', entsP Rel r -> entsP Rel o -> Forall Rel m -> k1 (n + l') r o m nf' = shift n (k2 l' r o m nf')) ->
+  peg_each_round rec1 es cands (n + l) reqd opt mo nf k1 = shift n (peg_each_round rec2 es cands l reqd opt mo nf k2).
+Proof.
+  intros Hes. induction cands as [|en rest IH]; intros l reqd opt mo nf k1 k2 Hc Hr Ho Hm Hk; cbn [peg_each_round].
+  - apply Hk; assumption.
+  - inversion Hc as [|? ? Hen Hrest]; subst. rewrite (Hen l).
+    destruct (rec2 (ee_e en) l) as [l' ts| | |]; cbn [shift]; try reflexivity.
+    + assert (Hm' : Forall Rel (mo ++ [each_order es en])).
+      { apply Forall_app. split; [exact Hm|]. constructor; [|constructor]. apply each_order_P; assumption. }
+      destruct (mem_cls (ee_cls en) reqd); [apply IH; try assumption; apply entsP_remove; assumption|].
+      destruct (mem_cls (ee_cls en) opt); [apply IH; try assumption; apply entsP_remove; assumption|].
+      apply IH; assumption.
+    + apply IH; assumption.
+Qed.
+
+Lemma each_loop_shift es multis : Forall Rel es -> entsP Rel multis -> forall fuel l reqd opt mo k1 k2,
+  entsP Rel reqd -> entsP Rel opt -> Forall Rel mo ->
+  (forall r o m, entsP Rel r -> entsP Rel o -> Forall Rel m -> k1 r o m = shift n (k2 r o m)) ->
+  peg_each_loop rec1 es fuel (n + l) reqd opt multis mo k1 = shift n (peg_each_loop rec2 es fuel l reqd opt multis mo k2).
+Proof.
+  intros Hes Hmu. induction fuel as [|f IH]; intros l reqd opt mo k1 k2 Hr Ho Hm Hk; cbn [peg_each_loop]; [reflexivity|].
+  apply each_round_shift; try assumption.
+  - apply entsP_app; [exact Hr|]. apply entsP_app; assumption.
+  - intros l' r o m nf' Hr' Ho' Hm'. rewrite eqb_shift.
+    destruct (Nat.eqb nf' _); [apply Hk; assumption|].
+    destruct (_ && _); [reflexivity|]. apply IH; assumption.
+Qed.
+
+Lemma each_shift s1 s2 es info l : Forall Rel es ->
+  entsP Rel (each_req1 (each_zip es info) ++ each_multi true (each_zip es info)) -> entsP Rel (each_opt1 (each_zip es info)) ->
+  each_multi false (each_zip es info) = [] ->
+  peg_each s1 rec1 es info (n + l) = shift n (peg_each s2 rec2 es info l).
+Proof.
+  intros Hes Hr Ho Hmu. unfold peg_each. cbv zeta. rewrite Hmu. unfold each_fuel.
+  apply each_loop_shift; try assumption; try constructor.
+  intros r o m Hr' Ho' Hm'. destruct r; [|reflexivity].
+  apply seq_shift. intros e Hin. apply in_app_or in Hin as [Hin|Hin].
+  - rewrite Forall_forall in Hm'. apply Hm'. exact Hin.
+  - pose proof (each_unmatched_P Rel es info o Hes) as Hu. rewrite Forall_forall in Hu. apply Hu. exact Hin.
+Qed.
 End Shift.
 
 Section Local.
@@ -283,7 +331,20 @@ Proof.
                           then if skipws a then skip_white s L (white a) else L else L)) as ->.
       { destruct (forallb _ es); [destruct (skipws a); [apply skip_white_app|reflexivity]|reflexivity]. }
       apply (longest_shift (length x) _ _ es Hrel _ None).
-    + reflexivity.
+    + (* Each: no repetition among the operands, hence no repeatable operand *)
+      assert (Hn : Forall (fun c => norep c = true) es).
+      { apply Forall_forall. intros c Hin. eapply norep_all; eassumption. }
+      assert (HR : forall c, norep c = true -> Rel (length x) (peg G (x ++ s) f) (peg G s f) c).
+      { intros c Hc l. apply IH. exact Hc. }
+      destruct (each_groups_P (fun c => norep c = true)
+                  (fun a0 i0 z b ne H => ltac:(discriminate H)) (fun a0 i0 dflt b H => H) es info Hn) as (H1 & H2 & H3 & H4 & _).
+      apply each_shift.
+      * eapply Forall_impl; [|exact Hn]. exact HR.
+      * apply entsP_app; (eapply Forall_impl; [|eassumption]); intros en Hen; apply HR; exact Hen.
+      * eapply Forall_impl; [|exact H4]. intros en Hen. apply HR. exact Hen.
+      * clear - Hn. unfold each_zip. revert info. induction Hn as [|c es Hc Hn IHn]; intros [|i0 info]; try reflexivity.
+        cbn [combine each_multi flat_map fst]. fold (each_multi false (combine es info)). rewrite IHn.
+        destruct c; simpl in Hc; try discriminate Hc; reflexivity.
   - destruct kd; try reflexivity; try (destruct aspy; [reflexivity|]); rewrite (IH c L He); destruct (peg G s f c L) as [l ts| | |]; reflexivity.
   - destruct id as [id|]; [|reflexivity]. destruct (nth_error G id) as [c|] eqn:E; [|reflexivity].
     apply IH. rewrite forallb_forall in HG. apply HG. eapply nth_error_In. exact E.
